@@ -556,6 +556,7 @@ func verifH_C05_deepobject_nested() { verifC05DeepNested(false) }
 func verifH_C05_deepobject_nested3() { verifC05DeepNested(true) }
 
 func verifC05DeepNested(independent bool) {
+	verifMapOrder() // map iteration order is unspecified: ascending and descending key order
 	t1 := verifTypeNames[verifChoose("t1", 4)]
 	t2, t3 := t1, t1
 	if independent {
